@@ -428,9 +428,20 @@ func (c *valConfig) genVal(rt *rapid.T, depth int, pub bool) *Val {
 		}
 		return &Val{K: "unsafe", Sub: []*Val{c.genVal(rt, depth+1, pub)}}
 	case "redactable":
-		switch rapid.IntRange(0, 3).Draw(rt, "rk") {
+		rk := rapid.IntRange(0, 3).Draw(rt, "rk")
+		if c.two && c.bytesAlpha && rk >= 2 {
+			// (a StringBuilder printed by reflection shows its buffer byte by
+			// byte; with partial marker bytes the escaped length - the shape -
+			// depends on whether neighbouring bytes assemble into a marker)
+			rk = 0
+		}
+		switch rk {
 		case 0, 1:
-			return &Val{K: pick(rt, "k", []string{"rs", "rs", "rb"}), Pr: c.genPrintSpec(rt, depth+1, pub)}
+			k := pick(rt, "k", []string{"rs", "rs", "rb"})
+			// (a RedactableBytes handed to the standard fmt by a Formatter is a
+			// byte slice like any other: one envelope per byte, so its length
+			// is shape; its content is shared by both instantiations)
+			return &Val{K: k, Pr: c.genPrintSpec(rt, depth+1, pub || (k == "rb" && c.two))}
 		default:
 			oc := &opConfig{bytesAlpha: c.bytesAlpha, ioSide: true, prints: false, maxTok: 3}
 			v := &Val{K: c.pickK(rt, "k", []string{"sb", "psb"}), Ops: genHistory(rt, oc, 5)}
@@ -540,6 +551,10 @@ func (c *valConfig) genSafeFormatScript(rt *rapid.T, depth int, pub bool) []*Op 
 			ops = append(ops, &Op{K: "Fwd", Args: []*Val{c.genVal(rt, depth+1, pub)}})
 		case k == 2 && !c.noPanic:
 			ops = append(ops, &Op{K: "Panic", Args: []*Val{c.genPanicPayload(rt, depth, pub)}})
+		case k == 3 && !c.noErrors && !c.noPointers:
+			// %w in a nested format: always a bad verb there (only the format
+			// of HelperForErrorf itself may wrap)
+			ops = append(ops, &Op{K: "Printf", S: B("x %w y"), Args: []*Val{c.leafS(rt, "stderr", pub, false)}})
 		default:
 			ops = append(ops, genOp(rt, oc))
 		}
